@@ -1,5 +1,6 @@
 --------------------------- MODULE HttpFramingDomains ---------------------------
 (* The enumerated abstract domains of C17 (shared by HttpFramingMC and ChunkReader). *)
+(* The sets take their bounds as parameters so that TLC builds only the one a run uses. *)
 EXTENDS HttpFraming
 
 CONSTANTS MaxN,        \* body lengths 0..MaxN
@@ -10,36 +11,36 @@ CONSTANTS MaxN,        \* body lengths 0..MaxN
           Registered   \* coding names registered in the real CompressionHandler (read at run time)
 
 \* ---- valid framing
-ChunkCases == {[kind |-> "chunk", n |-> n, c |-> c, pat |-> pat] : n \in 0..MaxN, c \in 1..MaxC, pat \in Patterns}
+ChunkCases(maxn, maxc) == {[kind |-> "chunk", n |-> n, c |-> c, pat |-> pat] : n \in 0..maxn, c \in 1..maxc, pat \in Patterns}
 
 \* ---- malformed / truncated framing
 \* 0 1 - ; CR LF x
 Alphabet == {48, 49, 45, 59, 13, 10, 120}
 XBody(n) == IF n = 0 THEN <<>> ELSE [i \in 1..n |-> 120]
-BaseStreams == {[n |-> n, c |-> c, s |-> Chunked(XBody(n), c, "plain")] : n \in 0..MutN, c \in 1..MutC}
+BaseStreams(mutn, mutc) == {[n |-> n, c |-> c, s |-> Chunked(XBody(n), c, "plain")] : n \in 0..mutn, c \in 1..mutc}
 Mut(s) == {[mut |-> "trunc", s |-> SubSeq(s, 1, k)] : k \in 0..(Len(s) - 1)}
           \cup {[mut |-> "subst", s |-> [s EXCEPT ![p] = a]] : p \in 1..Len(s), a \in Alphabet}
           \cup {[mut |-> "delete", s |-> SubSeq(s, 1, p - 1) \o SubSeq(s, p + 1, Len(s))] : p \in 1..Len(s)}
           \cup {[mut |-> "insert", s |-> SubSeq(s, 1, p) \o <<a>> \o SubSeq(s, p + 1, Len(s))] :
                   p \in 0..Len(s), a \in Alphabet}
-MutantCases == UNION {{[kind |-> "mutant", mut |-> m.mut, stream |-> m.s] : m \in Mut(b.s)} : b \in BaseStreams}
-MutantStreams == {m.stream : m \in MutantCases}
+MutantCases(mutn, mutc) == UNION {{[kind |-> "mutant", mut |-> m.mut, stream |-> m.s] : m \in Mut(b.s)} : b \in BaseStreams(mutn, mutc)}
+MutantStreams(mutn, mutc) == {m.stream : m \in MutantCases(mutn, mutc)}
 
-ShortStreams == UNION {[1..k -> Alphabet] : k \in 0..ShortLen}
-ShortCases == {[kind |-> "short", stream |-> s] : s \in ShortStreams}
+ShortStreams(maxlen) == UNION {[1..k -> Alphabet] : k \in 0..maxlen}
+ShortCases(maxlen) == {[kind |-> "short", stream |-> s] : s \in ShortStreams(maxlen)}
 
 \* ---- content codings
 UnregisteredLabels == {"deflate", "br", "identity", "GZIP"}
-Labels == Registered \cup UnregisteredLabels
+Labels(reg) == reg \cup UnregisteredLabels
 Framings == {"cl", "chunked"}
 Paths == {"request", "response", "get"}
-CodingCases == {[kind |-> "coding", enc |-> e, label |-> lb, damage |-> d, framing |-> f, path |-> p] :
-                  e \in Registered, lb \in Labels, d \in Damages, f \in Framings, p \in Paths}
+CodingCases(reg) == {[kind |-> "coding", enc |-> e, label |-> lb, damage |-> d, framing |-> f, path |-> p] :
+                  e \in reg, lb \in Labels(reg), d \in Damages, f \in Framings, p \in Paths}
 
 \* ---- negotiation
 Tokens == {"gzip", "lz4", "br", "identity", "*"}
 Entries == [tok : Tokens, q : QClasses]
-Headers == UNION {[1..k -> Entries] : k \in 0..MaxEntries}
-NegoCases == {[kind |-> "nego", hdr |-> h] : h \in Headers}
+Headers(maxk) == UNION {[1..k -> Entries] : k \in 0..maxk}
+NegoCases(maxk) == {[kind |-> "nego", hdr |-> h] : h \in Headers(maxk)}
 EnabledSets == SUBSET {"gzip", "lz4", "x-lz4"}
 =============================================================================
